@@ -36,6 +36,11 @@ type c10Opts struct {
 	jsonResp  bool
 	dupID     bool // two concurrent POSTs on one session reuse the same JSON-RPC id
 	store     bool
+	// broadcast: both sessions are subscribed to a resource and every tool handler announces an
+	// update of it with Server.ResourceUpdated, passing its own handler context.  A broadcast is
+	// issued outside any request of the receiving sessions: it belongs on each subscribed session's
+	// standalone stream, never on the exchange of a request - of whichever session and id.
+	broadcast bool
 }
 
 func c10Messages(rec *httptest.ResponseRecorder) ([]map[string]any, error) {
@@ -108,11 +113,21 @@ func c10Run(o c10Opts) vs.Verdict {
 		gates[t] = ctl.Gate(t)
 	}
 	vs.Quiet(true)
-	s := NewServer(&Implementation{Name: "srv", Version: "1"}, &ServerOptions{Logger: quietLogger})
+	const c10URI = "file:///shared"
+	s := NewServer(&Implementation{Name: "srv", Version: "1"}, &ServerOptions{Logger: quietLogger,
+		SubscribeHandler:   func(context.Context, *SubscribeRequest) error { return nil },
+		UnsubscribeHandler: func(context.Context, *UnsubscribeRequest) error { return nil },
+	})
+	s.AddResource(&Resource{URI: c10URI, Name: "shared"}, func(context.Context, *ReadResourceRequest) (*ReadResourceResult, error) {
+		return &ReadResourceResult{}, nil
+	})
 	AddTool(s, &Tool{Name: "echo"}, func(ctx context.Context, r *CallToolRequest, in c10Args) (*CallToolResult, any, error) {
 		r.Session.NotifyProgress(ctx, &ProgressNotificationParams{ProgressToken: "p", Progress: 1, Message: in.Tag})
 		if g := gates[in.Tag]; g != nil {
 			g.Wait()
+		}
+		if o.broadcast {
+			s.ResourceUpdated(ctx, &ResourceUpdatedNotificationParams{URI: c10URI})
 		}
 		return &CallToolResult{Content: []Content{&TextContent{Text: in.Tag}}}, nil, nil
 	})
@@ -145,6 +160,12 @@ func c10Run(o c10Opts) vs.Verdict {
 				return vs.Verdict{Bad: fmt.Sprintf("initialize failed: %d", w.Code), Sig: "c10 setup"}
 			}
 			post(sids[lbl], `{"jsonrpc":"2.0","method":"notifications/initialized","params":{}}`)
+			if o.broadcast {
+				if w := post(sids[lbl], `{"jsonrpc":"2.0","id":"s","method":"resources/subscribe","params":{"uri":"`+c10URI+`"}}`); w.Code != 200 {
+					ctl.Stop()
+					return vs.Verdict{Bad: fmt.Sprintf("subscribe failed: %d %s", w.Code, w.Body.String()), Sig: "c10 setup"}
+				}
+			}
 			// the session's standalone stream
 			gctx, cancel := context.WithCancel(ctx)
 			cancels = append(cancels, cancel)
@@ -216,7 +237,9 @@ func c10Run(o c10Opts) vs.Verdict {
 					f.failf("response-id", "the exchange of request %s carries a response with id %v", p.tag, m["id"])
 				}
 			case "notification":
-				if tag != p.tag {
+				if m["method"] == "notifications/resources/updated" {
+					f.failf("broadcast-on-request-exchange", "the exchange of request %s (session %s, id %d) carries a resources/updated broadcast, which belongs on the standalone stream of each subscribed session", p.tag, p.sess, p.id)
+				} else if tag != p.tag {
 					f.failf("notification-on-foreign-exchange", "the exchange of request %s carries a notification issued while handling %s", p.tag, tag)
 				}
 			}
@@ -247,14 +270,22 @@ func c10Run(o c10Opts) vs.Verdict {
 			f.failf("garbage-on-exchange", "standalone stream of %s: %v", lbl, err)
 			continue
 		}
+		updates := 0
 		for _, m := range msgs {
 			kind, tag := c10TagOf(m)
 			if kind == "response" {
 				f.failf("response-on-standalone-stream", "the standalone stream of session %s carries the response of %s", lbl, tag)
 			}
+			if m["method"] == "notifications/resources/updated" {
+				updates++
+				continue
+			}
 			if kind == "notification" && !strings.HasPrefix(tag, lbl) {
 				f.failf("cross-session-delivery", "the standalone stream of session %s carries a notification of %s", lbl, tag)
 			}
+		}
+		if o.broadcast && updates != len(posts) {
+			f.failf("broadcast-lost", "the standalone stream of session %s (subscribed) carries %d resources/updated notifications; %d handlers announced an update", lbl, updates, len(posts))
 		}
 		summary = append(summary, fmt.Sprintf("standalone-%s:%dmsg", lbl, len(msgs)))
 	}
@@ -633,6 +664,7 @@ func TestVerifC10(t *testing.T) {
 		mk("stateful-sse", c10Opts{}, b),
 		mk("stateful-json", c10Opts{jsonResp: true}, b),
 		mk("stateless-sse", c10Opts{stateless: true}, b),
+		mk("stateful-sse/broadcast-from-handlers", c10Opts{broadcast: true}, b),
 		mk("stateful-sse/duplicate-in-flight-id", c10Opts{dupID: true}, env.Pick(2, 3)),
 		mk("stateful-sse+store/duplicate-in-flight-id", c10Opts{dupID: true, store: true}, env.Pick(2, 3)),
 		vs.E1(t, "stateful-sse/server-requests-during-calls", b, vs.Options{}, func() vs.Verdict { return c10ServerRequests(false) }),
